@@ -4,7 +4,7 @@ from .. import core, real, gen, e2e, eidlib
 from ..leandrv import Driver
 
 MODULE = 'Bluebell.Props.C05'
-THEOREMS = ['Bluebell.C05_preserve_covers_mixed', 'Bluebell.C05_keywords_parse_back', 'Bluebell.C05_examples']
+THEOREMS = ['Bluebell.C05_preserve_covers_mixed', 'Bluebell.C05_keywords_parse_back', 'Bluebell.C05_examples', 'Bluebell.C05_plain_paragraph_written_as_its_text', 'Bluebell.C05_plain_paragraph_round_trip']
 BLOCKISH = {'p', 'heading', 'subheading', 'crossHeading', 'listIntroduction', 'listWrapUp', 'num', 'longTitle', 'from', 'scene', 'narrative', 'summary', 'li'}
 HIER = {k.lower() for k in gen.HIER[:27]}
 FRAG_RULES = {'table': 'table', 'blockList': 'block_list', 'ul': 'bullet_list'}
@@ -274,7 +274,7 @@ def run(ctx, info):
     ctx.oblige('oracle: parse(unparse(x)) = x, second round trip identical, fragments round-trip (outside listed findings)', 'oracle', nb == 0,
                f'{nb} unlisted violations in {len(cases)} documents; listed classes hit {known}')
     if drv:
-        ms = drv.batch_parallel([{'op': 'unparse', 'tree': t} for t in trees], jobs=12)
+        ms = drv.batch_parallel([{'op': 'unparse', 'tree': eidlib.ordered(t)} for t in trees], jobs=12)
         bad = []
         for t, m in zip(trees, ms):
             rl = real.unparse_tree(t)
